@@ -285,12 +285,14 @@ def emit_problems(circuit):
 
 
 def fixed_anchor(circuit):
-    """{node id: (class name, q_registers, q_types)} for the Fixed CNOT / MeasurementCNOTandReset nodes"""
+    """{node id: (class name, q_registers, q_types)} for the emission CNOTs (emitter -> photon) and the measure-and-reset
+    operations present in a circuit *at the start of a history* — they were placed at initialisation, whatever their labels"""
     out = {}
     for n in circuit.dag.nodes:
         op = circuit.dag.nodes[n]["op"]
-        if "Fixed" in op.labels and type(op).__name__ in ("CNOT", "MeasurementCNOTandReset"):
-            out[n] = (type(op).__name__, tuple(op.q_registers), tuple(op.q_registers_type))
+        name = type(op).__name__
+        if name == "MeasurementCNOTandReset" or (name == "CNOT" and tuple(op.q_registers_type) == ("e", "p")):
+            out[n] = (name, tuple(op.q_registers), tuple(op.q_registers_type))
     return out
 
 
